@@ -40,11 +40,12 @@ if [ $ok -eq 1 ]; then
     [ $rc -eq 1 ] && detected="$detected $p"
   done
   d=/verif/seeded/$name; mkdir -p $d
-  cp $src/patch.diff $d/patch.diff; cp $src/$demo_base $d/$demo_base
+  if [ "$(cd $src && pwd)" != "$(cd $d && pwd)" ]; then cp $src/patch.diff $d/patch.diff; cp $src/$demo_base $d/$demo_base; fi
   python3 - "$src/meta.json" "$d/meta.json" "$name" "$detected" "$results" "$*" <<'PY'
-import json,sys
+import json,sys,subprocess
 src,dst,name,det,res,props=sys.argv[1:7]
 m=json.load(open(src))
+m['evaluated_at_repo_commit']=subprocess.run(['git','-C','/repo','rev-parse','--short','HEAD'],capture_output=True,text=True).stdout.strip()
 m['name']=name
 m['confirmed']={'demo_passes_without_patch':True,'existing_tests_pass_with_patch':True,'demo_fails_with_patch':True,
   'how':'tools/seeded.sh in a scratch worktree of /repo HEAD (removed afterwards): go build ./... && go test -vet=off -count=1 ./... with the patch; demo_cmd with and without the patch'}
